@@ -77,6 +77,12 @@ def ident(values, from_unit, to_unit=None):
     return np.array(np.asarray(values), copy=True), (to_unit if to_unit is not None else from_unit + "_base")
 
 
+def decoy(values, from_unit, to_unit=None):
+    """the converter that must NOT be in force: installed as module default while another one is passed explicitly"""
+    import numpy as np
+    return np.full(len(np.asarray(values)), -1.0), "DECOY"
+
+
 def affine_inverse(values, unit_now, unit_before):
     return affine(values, unit_now, unit_before)[0]
 
@@ -271,10 +277,15 @@ def run_impl(case):
     to_obj, to_model = build_to(case["to"], [c["name"] for c in before["cols"]])
     old_default = pdtable.units.default_converter
     res = {"before": before, "to_model": to_model}
+    dec = Recorder(decoy) if cv.get("decoy_default") else None
     try:
         with warnings.catch_warnings():
             warnings.simplefilter("ignore")
-            if cv.get("as_default"):
+            if dec is not None:
+                # configuration: a DIFFERENT converter is installed as module default; the explicit one must win
+                pdtable.units.default_converter = dec
+                r = t.convert_units(to_obj, rec)
+            elif cv.get("as_default"):
                 pdtable.units.default_converter = rec
                 r = t.convert_units(to_obj)
             elif rec is None:
@@ -296,7 +307,43 @@ def run_impl(case):
             res["result"] = None
     res["after"] = snapshot(t)
     res["log"] = rec.log if rec is not None else []
+    res["decoy_log"] = dec.log if dec is not None else []
+    if r is not None and res.get("result") is not None and res["is_new"] and res["result_type"] == "Table":
+        try:
+            with warnings.catch_warnings():
+                warnings.simplefilter("ignore")
+                probe_aliasing(t, r, res)
+        except Exception as e:
+            res["probe_error"] = type(e).__name__
     return res
+
+
+def _edit_in_place(tab, tag):
+    """header and cell edits through the public facade of ONE table object (dtype-preserving)"""
+    import pandas as pd
+    tab.destinations.add("__probe_" + tag)
+    if len(tab.destinations) > 1:
+        tab.destinations.discard(sorted(d for d in tab.destinations if not d.startswith("__probe_"))[0])
+    tab.metadata.name = tab.name + "~" + tag
+    names, units = tab.column_names, tab.units
+    num = [nm for nm, u in zip(names, units) if u not in SPECIAL]
+    if num:
+        tab[num[-1 if tag == "orig" else 0]].unit = "probe_" + tag
+    if names and len(tab.df):
+        j = (len(names) - 1) if tag == "orig" else 0
+        kind = tab.df.dtypes.iloc[j].kind
+        new = {"i": 12345, "u": 12345, "f": 12345.5, "b": not bool(tab.df.iloc[0, j]), "M": pd.Timestamp("1970-01-02")}
+        tab.df.iloc[0, j] = new.get(kind, "probe")
+
+
+def probe_aliasing(t, r, res):
+    """after the call: edit the returned table in place and look at the original; then edit the original in place
+    and look at the returned table.  Neither may notice the other."""
+    _edit_in_place(r, "res")
+    res["orig_after_result_edit"] = snapshot(t)
+    r_now = snapshot(r)
+    _edit_in_place(t, "orig")
+    res["result_after_orig_edit"] = [r_now, snapshot(r)]
 
 
 # ---------------------------------------------------------------- oracle (from the property text)
@@ -325,6 +372,19 @@ def oracle(case, obs, out):
     # the original table is not modified — whatever happened
     if after != before:
         fail("the original table was modified by convert_units", after, before, "original_modified")
+        return
+    # … nor afterwards through the returned table (no shared header / cells), and vice versa
+    if "orig_after_result_edit" in obs and obs["orig_after_result_edit"] != before:
+        fail("the original table changed when the returned table was edited in place (shared state)",
+             obs["orig_after_result_edit"], before, "alias:result->original")
+        return
+    if "result_after_orig_edit" in obs and obs["result_after_orig_edit"][0] != obs["result_after_orig_edit"][1]:
+        fail("the returned table changed when the original was edited in place (shared state)",
+             obs["result_after_orig_edit"][1], obs["result_after_orig_edit"][0], "alias:original->result")
+        return
+    if obs.get("decoy_log"):
+        fail("the module default converter was consulted although a converter was passed explicitly",
+             [[e["from"], e["to"]] for e in obs["decoy_log"]], [], "default_overrides_explicit")
         return
     cols = before["cols"]
     targets = ref_targets(case["to"], cols)
@@ -538,9 +598,10 @@ def gen_to(rng, table, family):
 def gen_conv(rng, family):
     r = rng.random()
     if r < 0.62:
-        return {"kind": "pure", "pure": family}
+        return dict({"kind": "pure", "pure": family}, **({"decoy_default": True} if rng.random() < 0.25 else {}))
     if r < 0.80:
-        return {"kind": "fail", "pure": family, "fail_at": rng.choice([0, 0, 1, 2, 3])}
+        return dict({"kind": "fail", "pure": family, "fail_at": rng.choice([0, 0, 1, 2, 3])},
+                    **({"decoy_default": True} if rng.random() < 0.25 else {}))
     if r < 0.86:
         return {"kind": "badlen", "pure": family, "badlen": rng.choice(["short", "scalar"])}
     if r < 0.93:
@@ -574,10 +635,11 @@ def fixed_cases(seed):
            {"kind": "list", "xs": ["u1"]}, {"kind": "dict", "m": [["a", "u1"], ["zz", "q"], ["b", None]]},
            {"kind": "callable", "m": [["b", "uk"]]}, {"kind": "other", "what": "int"},
            {"kind": "list", "xs": ["__base__", "__origin__", None, None, None]},
-           {"kind": "dict", "m": [["a", "zz"]]}, {"kind": "dict", "m": [["d", "u1"]]}]
+           {"kind": "dict", "m": [["a", "zz"]]}, {"kind": "dict", "m": [["d", "u1"]]}, {"kind": "dict", "m": []},
+           {"kind": "callable", "m": []}, {"kind": "list", "xs": [None, None, None, None, None]}]
     out = []
     for to in tos:
-        for cv in (pure, {"kind": "fail", "pure": "affine", "fail_at": 1}, {"kind": "none"},
+        for cv in (pure, dict(pure, decoy_default=True), {"kind": "fail", "pure": "affine", "fail_at": 1}, {"kind": "none"},
                    {"kind": "default", "pure": "affine", "as_default": True},
                    {"kind": "badlen", "pure": "affine", "badlen": "short"}):
             out.append({"seed": seed, "index": -1 - len(out), "family": "affine", "table": copy.deepcopy(t),
@@ -602,6 +664,12 @@ def eval_case(case, out, ops, pend, model_ok, record=True):
     obs = run_impl(case)
     out.count("form:" + case["to"]["kind"] + (":" + case["to"]["s"] if case["to"].get("s") in ("base", "origin") else ""))
     out.count("conv:" + case["conv"]["kind"] + ":" + case["conv"].get("pure", "-"))
+    if case["conv"].get("decoy_default"):
+        out.count("config:other_default_converter_installed")
+    if "orig_after_result_edit" in obs:
+        out.count("aliasing_probed")
+    if "probe_error" in obs:
+        out.count("aliasing_probe_error:" + obs["probe_error"])
     out.count("index:" + case["table"].get("index_kind", "?"))
     out.count("outcome:" + obs.get("exc", "table"))
     out.count("converter_calls:" + str(min(len(obs["log"]), 4)))
@@ -616,6 +684,8 @@ def eval_case(case, out, ops, pend, model_ok, record=True):
         log = [{k: v for k, v in e.items() if k != "nargs"} for e in obs["log"]]
         conv_j = None if (cv["kind"] == "none" or cv.get("as_default")) else log
         dflt_j = log if cv.get("as_default") else None
+        if cv.get("decoy_default"):
+            dflt_j = [{k: v for k, v in e.items() if k != "nargs"} for e in obs["decoy_log"]]
         ops.append({"op": "convert_units", "table": model_table(obs["before"]), "to": obs["to_model"],
                     "conv": conv_j, "dflt": dflt_j})
         pend.append((case, obs))
@@ -628,7 +698,9 @@ def run(tier, seed, model_ok, translator, search=False):
                 "other str, list, tuple, wrong-length list, dict with superfluous names and None values, callable, "
                 "non-dispatcher objects, per-column __base__/__origin__) x converter (affine with known inverse, "
                 "pdtable.demo convert_this, pdtable pint_converter; each also failing on its k-th call, returning a "
-                "wrong length, installed as default converter, or absent). Non-trivial: the converter was called or a "
+                "wrong length, installed as default converter, passed explicitly while a DIFFERENT converter is the "
+                "module default, or absent); after every returned table the result and then the original are edited "
+                "in place (destinations, name, a unit, a cell) and the other one is compared with its snapshot. Non-trivial: the converter was called or a "
                 "special column was refused.")
     rng = make_rng(seed, "C06")
     ops, pend = [], []
